@@ -17,6 +17,10 @@ from concurrent.futures import ThreadPoolExecutor
 
 _HERE = os.path.dirname(os.path.abspath(__file__))
 VERIF = os.path.dirname(os.path.dirname(_HERE))
+# Evidence and replay files describe /repo. A run against another tree (VERIF_REPO = a scratch worktree with a
+# seeded change) keeps its files apart, under build/, so that it cannot pass for evidence about /repo.
+_OTHER_TREE = os.path.realpath(os.environ.get("VERIF_REPO", "/repo")) != os.path.realpath("/repo")
+OUT_ROOT = os.path.join(VERIF, "build", "other-tree") if _OTHER_TREE else VERIF
 sys.path.insert(0, os.path.join(VERIF, "engine"))
 import build as _build  # noqa: E402
 
@@ -500,7 +504,7 @@ class Check:
                 return True
             self.viol_sigs.add(sig)
             self.violations += 1
-            rd = os.path.join(VERIF, "replays")
+            rd = os.path.join(OUT_ROOT, "replays")
             os.makedirs(rd, exist_ok=True)
             safe = re.sub(r"[^A-Za-z0-9_.-]+", "_", sig)[:80]
             path = os.path.join(rd, "%s_%s%s" % (self.prop, safe, replay_ext))
@@ -523,8 +527,8 @@ class Check:
         ev = dict(property_id=self.prop, tier=self.tier, seed=self.seed, level=self.level,
                   coverage=self.cov, assumptions=self.assumptions,
                   wall_s=round(time.time() - self.t0, 2), violations=self.violations)
-        os.makedirs(os.path.join(VERIF, "evidence"), exist_ok=True)
-        p = os.path.join(VERIF, "evidence", "%s.json" % self.prop)
+        os.makedirs(os.path.join(OUT_ROOT, "evidence"), exist_ok=True)
+        p = os.path.join(OUT_ROOT, "evidence", "%s.json" % self.prop)
         with open(p + ".tmp", "w") as f:
             json.dump(ev, f, indent=1, default=str)
         os.rename(p + ".tmp", p)
